@@ -719,13 +719,17 @@ func mainC12() {
 	r.Rule("reference sender (hand-encoded, mode None) -> real receiving channel over loopback TCP; every tuple of 1..3 messages over the shapes {1,2,3 data chunks complete; 0,1,2 data chunks then abort} x EVERY interleaving of their chunks that keeps per-message order x receiving channel kind {server, client} x sequence numbering {plain starts; roll-over placed after the OPN chunk and after every stream chunk, to 0/1(/1023)} x body split class; counted as non-trivial and distinct: (kind, shapes, interleaving, numbering, split) with at least 2 chunks in the stream")
 	total := enumerateC12(thorough, func(int64, c12Case) {})
 	r.Set("cases_enumerated", total)
-	deaths := evid.Sharded(r, 4<<30, func(s evid.ShardInfo, w *evid.Run) {
+	deaths := evid.Sharded(r, 2<<30, func(s evid.ShardInfo, w *evid.Run) {
 		pl := &pool{prop: "C12"}
 		defer pl.close()
 		outcomes := map[string]int{}
 		hangs := 0
 		enumerateC12(thorough, func(idx int64, c c12Case) {
 			if !s.Mine(idx) {
+				return
+			}
+			if pl.tooManyDeaths(5) {
+				w.Capped("worker stopped after 5 executor deaths; the remaining cases of this shard were not run")
 				return
 			}
 			if hangs >= 2 {
